@@ -173,6 +173,33 @@ func genC19(t *rapid.T) c19Case {
 		stats.labelOnly("echoed-literal-across-messages", 1)
 		return c
 	}
+	if rapid.IntRange(0, 7).Draw(t, "conversation") == 7 {
+		// related headers: a primary message and the messages that usually follow it (the reply: same stream, next
+		// function; the same message again; the next primary), with parts of the header left out in some of them
+		stream := rapid.IntRange(0, 127).Draw(t, "stream")
+		fn := rapid.IntRange(0, 126).Draw(t, "function")*2 + 1
+		for i := 0; i < n; i++ {
+			f := fn + rapid.SampledFrom([]int{0, 1, 1, 1, 2, -1}).Draw(t, "step")
+			if i == 0 {
+				f = fn
+			}
+			if f < 0 || f > 255 {
+				f = fn
+			}
+			hdr := fmt.Sprintf("S%dF%d", stream, f)
+			if f%2 == 1 {
+				hdr += rapid.SampledFrom([]string{" W", " W", " [W]", ""}).Draw(t, "wait")
+			}
+			hdr += rapid.SampledFrom([]string{" H->E", " H<-E", " H<->E", "", "", ""}).Draw(t, "dir")
+			hdr += rapid.SampledFrom([]string{"", "", " Reply", " name"}).Draw(t, "name")
+			body := rapid.SampledFrom([]string{"", "\n<L>", "\n<U1 1>", "\n<L <A \"x\"> <U2 v>>", "\n<A ack>"}).Draw(t, "body")
+			c.Texts = append(c.Texts, hdr+body+"\n.\n")
+			c.Seps = append(c.Seps, rapid.SampledFrom([]string{"", " ", "\n", " // c\n"}).Draw(t, "joiner"))
+			fn = f
+		}
+		stats.labelOnly("related-headers", 1)
+		return c
+	}
 	for i := 0; i < n; i++ {
 		sp := &rapidSpeller{t: t, sizes: rapid.Bool().Draw(t, "withSizes")}
 		msgs, toks := genSMLMessages(t, rapid.SampledFrom([]int{1, 1, 2}).Draw(t, "msgsInText"), sp, treeOpts{Vars: true, Ellipsis: true, Suffix: true, NoDeep: true, MaxDepth: 4, MaxElems: 4, VarPct: 35})
